@@ -169,6 +169,10 @@ type World struct {
 	// ExtraEnv is added to every process.
 	ExtraEnv []string
 	Hang     string
+	// Extra: further LFS servers (one store each), for remotes that do not
+	// share the first one; RemoteSrv maps a bare remote's directory to its server.
+	Extra     []*Front
+	RemoteSrv map[string]*Front
 }
 
 // StepRec is one executed process.
@@ -218,6 +222,29 @@ func (w *World) Close() {
 	if w.Front != nil {
 		w.Front.Close()
 	}
+	for _, f := range w.Extra {
+		f.Close()
+	}
+}
+
+// AddServer starts another simulated LFS server (its own object store, the
+// same fault configuration and chooser) and returns its front.
+func (w *World) AddServer() *Front {
+	srv := sim.NewLFSServer(w.Chooser, w.Srv.F)
+	fr, err := NewFront(srv)
+	if err != nil {
+		panic(sim.HarnessError{Msg: "second LFS server: " + err.Error()})
+	}
+	w.Extra = append(w.Extra, fr)
+	return fr
+}
+
+// FrontFor returns the LFS server that serves a bare remote.
+func (w *World) FrontFor(remote string) *Front {
+	if f, ok := w.RemoteSrv[remote]; ok {
+		return f
+	}
+	return w.Front
 }
 
 func (w *World) env(extra ...string) []string {
